@@ -1,7 +1,7 @@
 ---------------------------- MODULE PureContract ----------------------------
 (* C15, first sentence: the arguments with which a priority discipline calls its divider, recorded by a
    wrapping divider during free-running and replayed runs of the REAL code (distinct calls only).
-   record: [prios (configured, highest first), H, ps, d, nonnil] *)
+   record: [prios (configured or ever registered, highest first), H, ps, d, nonnil, v1] *)
 EXTENDS Integers, Sequences, Json, TLC
 Calls == ndJsonDeserialize("contract_calls.ndjson")
 VARIABLE i
@@ -13,5 +13,5 @@ C15_contract ==
   /\ \A j \in 1..Len(C.ps)-1 : C.ps[j] > C.ps[j+1]       \* distinct, sorted from highest to lowest
   /\ Range(C.ps) \subseteq Range(C.prios)                \* configured priorities only
   /\ C.d <= C.H                                          \* dividend never exceeds HandlersQuantity
-  /\ C.nonnil                                            \* v2: never a nil distribution
+  /\ (C.v1 \/ C.nonnil)                                 \* v2: never a nil distribution
 =============================================================================
